@@ -54,3 +54,6 @@ func vBound(ok bool, msg string) { panic("gosym intrinsic") }
 func vJSONMember(b []byte, name string) ([]byte, bool) { panic("gosym intrinsic") } // member of a top-level object
 func vJSONKeys(b []byte) []string                      { panic("gosym intrinsic") } // member names in output order
 func vMapOrder(symbolic bool)                          { panic("gosym intrinsic") } // every map iteration order is explored while on
+
+func vChdir(dir string)        { panic("gosym intrinsic") } // change the (modelled) working directory
+func vTwoDirs() (string, string) { panic("gosym intrinsic") } // two distinct existing directories
